@@ -50,6 +50,10 @@ pub struct SessionSpec {
     /// the shared directory afterwards, without any in-process registration
     #[serde(default)]
     pub foreign: bool,
+    /// fault: before this session starts, every shard file of its shard cache directory is deleted (a cache clear or
+    /// an expiry clean-up by another process); managers cached in this process still have the files registered
+    #[serde(default)]
+    pub clear_cache_before: bool,
 }
 
 #[derive(Clone, Debug, Serialize, Deserialize, PartialEq)]
@@ -321,6 +325,7 @@ pub fn gen(seed: u64, run: u64, focus: &str, tier: Tier) -> Plan {
             with_file_info: rng.chance(1, 3),
             files,
             foreign: false,
+            clear_cache_before: false,
         });
     }
     match focus {
@@ -343,6 +348,11 @@ pub fn gen(seed: u64, run: u64, focus: &str, tier: Tier) -> Plan {
         for ss in plan.sessions.iter_mut() {
             if frng.chance(1, if focus == "C11" { 4 } else { 8 }) {
                 ss.foreign = true;
+            }
+        }
+        for ss in plan.sessions.iter_mut().skip(1) {
+            if frng.chance(1, if focus == "C11" { 6 } else { 12 }) {
+                ss.clear_cache_before = true;
             }
         }
     }
@@ -579,6 +589,14 @@ pub fn run_world(plan: &Plan, faults: &[FaultSpec], trace: bool) -> (World, Scra
             };
             std::fs::create_dir_all(&cfg.shard_config.cache_directory).unwrap();
             std::fs::create_dir_all(&shared_cache).unwrap();
+            if ss.clear_cache_before {
+                for (path, name) in plain_files(&shared_cache) {
+                    if name.ends_with(".mdb") {
+                        let _ = std::fs::remove_file(&path);
+                    }
+                }
+                st.lock().unwrap().log(format!("shard cache of client {} cleared before session {si}", ss.cache_id));
+            }
             if ss.foreign {
                 // the other process sees what the shared directory holds when it starts
                 for (path, name) in plain_files(&shared_cache) {
@@ -1248,6 +1266,11 @@ pub fn evaluate(ctx: &EvalCtx, w: &World, rep: &mut RunReport) {
         // C11.b / C11.c against earlier finalized sessions sharing this shard cache
         let index_cap = env_usize("HF_XET_CHUNK_INDEX_TABLE_MAX_SIZE", 64 << 20);
         let indexed_upper_bound = *cache_chunk_entries.get(&ss.cache_id).unwrap_or(&0);
+        if ss.clear_cache_before {
+            // what earlier sessions recorded in this cache is gone: they no longer oblige this or later sessions
+            stored_by_cache.entry(ss.cache_id).or_default().clear();
+            rep.count("fault:shard_cache_cleared_between_sessions", 1);
+        }
         let earlier = stored_by_cache.entry(ss.cache_id).or_default();
         // shards fetched through global dedup are registered in the cache as well and are not counted above
         let indexed_upper_bound = if index_cap < (64 << 20) && st.query_hits > 0 { usize::MAX } else { indexed_upper_bound };
@@ -1481,7 +1504,7 @@ impl Engine for SessionEngine {
             _ => rep.nontrivial,
         };
         rep.sample = Some(json!({
-            "sessions": p.sessions.iter().map(|s| json!({"files": s.files.len(), "cache": s.cache_id, "salt": s.salt_id, "global_dedup": s.global_dedup, "other_process": s.foreign})).collect::<Vec<_>>(),
+            "sessions": p.sessions.iter().map(|s| json!({"files": s.files.len(), "cache": s.cache_id, "salt": s.salt_id, "global_dedup": s.global_dedup, "other_process": s.foreign, "cache_cleared_before": s.clear_cache_before})).collect::<Vec<_>>(),
             "files": n_files, "latency_mode": p.latency_mode, "store_calls": {"put": n_put, "upload_shard": n_shard, "query": n_query},
             "enumerate_faults": p.enumerate_faults, "explicit_faults": p.faults.len(),
         }));
@@ -1585,7 +1608,7 @@ impl Engine for SessionEngine {
             _ => "at least two files with more than one feed call overlapped in event-sequence time and at least one dedup hit lay on a downloaded file's path",
         };
         let mgr = if focus == "C11" { " One C11 run in five instead drives one ShardFileManager from 2-4 concurrent callers (OS threads with their own runtimes under the cooperative one-thread-at-a-time scheduler, switching at the shard write-out points, between operations and whenever a caller finds a lock held): adds of xorb and file records, flushes (explicit and size-triggered) and queries; every record whose add returned Ok must be in a shard file of the directory after the final flush and be found by the manager (non-trivial there: a caller found a lock held and at least two shards were written)." } else { "" };
-        format!("Each run: 1-4 upload sessions x 1-8 concurrently cleaned files against one simulated store (real LocalClient behind gates) with seeded contents from an atom pool (twins, extensions, recombinations, in-file repeats, fragmentation patterns, degenerate sizes), seeded feed partitions, seeded latency of every store call on the paused clock, per-process seeded size-limit configuration; one session in eight (C11: one in four) runs as another process sharing the shard-cache directory (own manager objects; its shard files appear in the shared directory afterwards); all oracles of the session family are evaluated after the run.{mgr} Non-trivial: {nt}. Distinct: hash of (latency mode, per-session file/put/shard counts, order of store-call completions).")
+        format!("Each run: 1-4 upload sessions x 1-8 concurrently cleaned files against one simulated store (real LocalClient behind gates) with seeded contents from an atom pool (twins, extensions, recombinations, in-file repeats, fragmentation patterns, degenerate sizes), seeded feed partitions, seeded latency of every store call on the paused clock, per-process seeded size-limit configuration; one session in eight (C11: one in four) runs as another process sharing the shard-cache directory (own manager objects; its shard files appear in the shared directory afterwards) and before one session in twelve (C11: one in six) the shard cache directory is emptied (cache clear / expiry clean-up; data stored afterwards obliges later sessions again); all oracles of the session family are evaluated after the run.{mgr} Non-trivial: {nt}. Distinct: hash of (latency mode, per-session file/put/shard counts, order of store-call completions).")
     }
     fn real_vs_stub(&self) -> Value {
         json!({
